@@ -7,7 +7,8 @@
 (b) arbitrary bytes (E4, fault enumeration): every 1-unit buffer, every 2-unit buffer (first unit exhaustive, second
     from a 16-value alphabet), every single-byte substitution (12 values) and every byte truncation of a base set of
     the streams of (a).  Under a deterministic event budget the sweep must complete or raise InvalidInstruction and
-    everything it yields must lie inside the code and re-encode to the bytes at its offset.
+    everything it yields must have the length its own header / format fixes, lie inside the code and re-encode to the
+    bytes at its offset.
 Every buffer goes through the same judge: an independent reference sweep (gen/dalvik.decode + payload layout from the
 specification) decides whether the buffer is a valid stream (oracle (a)) or not (oracle (b)).
 """
@@ -44,8 +45,9 @@ MANIFEST = {
     "text": "All instruction sequences up to the bound over a catalogue covering every valid opcode, with every bounded "
             "combination of switch/array payloads, must be recovered exactly (names, offsets, lengths, bytes, "
             "off_to_pos/get_ins_off for every offset).  All 1-unit buffers, a 2-unit product and every single-byte "
-            "substitution and truncation of a base set of those streams must either sweep inside the buffer with exact "
-            "byte round trip or raise InvalidInstruction, within a deterministic event budget.",
+            "substitution and truncation of a base set of those streams must either sweep inside the buffer with spec "
+            "lengths (payloads: from their own header fields) and exact byte round trip or raise InvalidInstruction, "
+            "within a deterministic event budget.",
     "note": "Trusted: gen/dalvik.py.  Streams longer than the bound, multi-byte faults and ODEX mode are not explored; "
             "DEX.disassemble / get_instructions_idx need a DEX file and are not driven here.",
 }
@@ -112,6 +114,22 @@ def ref_sweep(buf, off=0):
         out.append((off, ins.name, ins.length, feat))
         off += ins.length
     return out, prob
+
+
+def spec_length(buf, off):
+    """Length in bytes the specification fixes for whatever starts at byte offset off: for a payload pseudo-instruction
+    computed from ITS OWN header fields, for an instruction from the format table; None when there is no complete
+    header / code unit or the opcode is unused (nothing may be yielded there)."""
+    if off + 2 > len(buf):
+        return None
+    u0 = buf[off] | (buf[off + 1] << 8)
+    if u0 in PAYLOAD_NAME:
+        if len(buf) - off < (4 if u0 == 0x0200 else 8):
+            return None
+        return 2 * D.payload_units(buf, off)
+    if u0 & 0xff in D.UNUSED:
+        return None
+    return 2 * D.units(D.OPC[u0 & 0xff][1])
 
 
 def classify_at(buf, off):
@@ -258,6 +276,12 @@ def judge(env, buf, size):
         raw = _safe(ins.get_raw)
         if not isinstance(ln, int) or ln <= 0:
             v.append(("arbitrary:%s" % classify_at(buf, off), "%s: instruction #%d at %d has get_length()=%r" % (hx, k, off, ln)))
+            break
+        want = spec_length(buf, off)
+        if ln != want:
+            v.append(("arbitrary:%s" % classify_at(buf, off),
+                      "%s: yielded %s at offset %d with get_length()=%d, but the header/format at that offset fixes the "
+                      "length at %s bytes (code has %d bytes)" % (hx, _safe(ins.get_name), off, ln, want, n)))
             break
         if off + ln > n or not isinstance(raw, (bytes, bytearray)) or bytes(raw) != bytes(buf[off:off + ln]):
             v.append(("arbitrary:%s" % classify_at(buf, off),
